@@ -5,6 +5,7 @@ set -u
 here=$(cd "$(dirname "$0")" && pwd)
 . "$here/env.sh"
 prop=${1:?property}; tier=${2:-quick}
+export VERIF_DIR=${VERIF_DIR:-$here}   # evidence, replay artefacts and known findings live next to this script
 mkdir -p "$here/bin" "$here/evidence"
 bin="$here/bin/mc"
 [ -n "${VERIF_MAIN:-}" ] && bin="$here/bin/$(basename "$VERIF_MAIN")"
